@@ -511,6 +511,9 @@ class C17(Spec, TdPart):
                    "weights are natural numbers (no uint32/uint64 wrap-around: fewer than 2^32 values)",
                    "rounding and overflow of float/double arithmetic are not modelled; the trace oracle allows 1e-12 (double) / 2e-6 (float) of the "
                    "value range on quantile range/monotonicity checks and is exact everywhere else",
+                   "finite values whose range width overflows the type (e.g. doubles near +-1e308 of both signs) overflow in centroid::add "
+                   "(`other.mean_ - mean_`) and yield NaN means / NaN quantiles in the implementation AND in the Float model alike; such "
+                   "streams are exercised for safety only (part `inf`), their query results are not judged",
                    "scale function abstract in the theorems; td_extremes_singleton needs only `max 1 normalizer = 0` (discharged for k2)",
                    "digests read from foreign (reference-format) images are outside C17: their first/last centroids need not be singletons"]
 
